@@ -8,7 +8,7 @@ from .. import q
 
 TITLE = 'Stream arbiter / multiplexer burst integrity'
 FLOOR = 100
-DECIDES = ('StreamArbiter and its two users-facing variants (HeaderQueueArbiter, SuperSpeedStreamArbiter) are lifted with '
+DECIDES = ('StreamArbiter and its two derived variants (HeaderQueueArbiter, SuperSpeedStreamArbiter) are lifted with '
            'N = 1..4 concrete inputs registered through their public add_stream/add_producer method (thorough: N up to 8); '
            'the extracted guarded assignments (Switch/Case arms with their priority negations, If nesting, last assignment '
            'wins, register widths) are then evaluated exhaustively over every reachable value of the clocked selection '
@@ -21,7 +21,7 @@ DECIDES = ('StreamArbiter and its two users-facing variants (HeaderQueueArbiter,
            'cannot change in a cycle in which the selected input is valid; (f) when the selected input is not valid and '
            'some input is, the next selection is the first-added valid input (scan order under last-wins); (g) the '
            'selection is held in a clocked register (no combinational loop through the output valid) wide enough for '
-           'every index written to it.  StreamMultiplexer (N = 1..4, add_input): with at most one input valid the output '
+           'every index written to it.  StreamMultiplexer (N = 1..4, thorough 1..6, add_input): with at most one input valid the output '
            'carries exactly that input, ready returns to it alone, and nothing is valid when no input is. ')
 NOT_DECIDED = ('the clock domain the selection register ends up in (the DomainRenamer applied to the module is not visible in '
                'the IR), the wiring of the producers at the instantiation sites, and behaviour of StreamMultiplexer when '
@@ -211,7 +211,9 @@ class Net:
         if not ds:
             return Tok(name), None
         if name in busy:
-            raise CombLoop(' -> '.join(busy + (name,)))
+            ex = CombLoop(' -> '.join(busy + (name,)))
+            ex.loc = self.comb[name][0].loc
+            raise ex
         busy = busy + (name,)
         val, win = self.init(name), None
         for a in ds:
@@ -298,8 +300,6 @@ def check_arbiter(ctx, clsname, mod, adder, n):
     reg_ok = bool(net.regs) and not net.both
     ctx.ob('C26.select-registered', tag + '.selection', reg_ok, first_loc(net, net.both[0]) if net.both else None,
            'the selection must be held in a clocked register (found clocked: %s; driven both ways: %s)' % (net.regs, net.both))
-    if not reg_ok:
-        return
     for r in net.regs:
         w = net.width(r)
         consts = [a for a in net.sync[r] if a.rhs.op == 'const']
@@ -307,6 +307,7 @@ def check_arbiter(ctx, clsname, mod, adder, n):
         ctx.ob('C26.select-range', '%s.%s' % (tag, q.base(r)), not bad, bad[0].loc if bad else ir.signals[r].loc,
                'every index written to the selection register must fit its %d bit(s) (declared range %s): %s' % (
                    w, ir.signals[r].rng, [q.fmt(a) for a in bad[:2]]))
+    rloc = first_loc(net, net.regs[0]) if net.regs else None
 
     def mkenv(st, v, rdy):
         env = dict(st)
@@ -390,7 +391,6 @@ def check_arbiter(ctx, clsname, mod, adder, n):
                     nsel = seen[nkey] if nkey in seen else selected(nst)
                     wins = [w_ for _, w_ in step.values() if w_ is not None]
                     nwin = wins[-1] if wins else None
-                    rloc = first_loc(net, net.regs[0])
                     if v[k]:
                         A['hold'].check(nsel == [k], where, 'next state {%s} selects %s' % (fmt_state(nst), nsel), nwin, rloc)
                     elif any(v):
@@ -398,19 +398,25 @@ def check_arbiter(ctx, clsname, mod, adder, n):
                         A['prio'].check(nsel == [want], where, 'next state {%s} selects %s, expected in%d' % (
                             fmt_state(nst), nsel, want), nwin, rloc)
     except CombLoop as ex:
-        ctx.ob('C26.select-registered', tag + '.comb-loop', False, None, 'combinational loop: %s' % ex)
-        return
+        # nothing below can be established: every clause of this configuration fails with the loop as the reason
+        loop = 'combinational loop %s' % ex
+        ctx.ob('C26.select-registered', tag + '.comb-loop', False, getattr(ex, 'loc', rloc), loop)
+        for acc in list(A.values()) + list(D.values()):
+            acc.n += 1
+            acc.bad = acc.bad or ('not established because of a ' + loop)
+        seen = {}
     except Unsupported as ex:
         raise AnalysisError('%s: construct not understood: %s' % (tag, ex))
-    ctx.ob('C26.select-registered', tag + '.comb-loop', True, None, 'no combinational loop through the selection')
+    else:
+        ctx.ob('C26.select-registered', tag + '.comb-loop', True, rloc, 'no combinational loop through the selection')
     for key in ('single', 'valid', 'rsel', 'roth', 'idle', 'hold', 'prio'):
         # with one input there is never another input nor another candidate to switch to
         A[key].emit(ctx, first_loc(net, OUT + 'valid'), vacuous_ok=(n == 1 and key in ('roth', 'prio')))
     for f in data:
-        D[f].emit(ctx, first_loc(net, OUT + f))
+        D[f].emit(ctx, first_loc(net, OUT + f) or first_loc(net, OUT + 'valid'))
     # every registered input must be selectable at all (reachability of the N selections)
     reach = sorted({s[0] for s in seen.values() if len(s) == 1})
-    ctx.ob('C26.priority', tag + '.selection.reachable', reach == list(range(n)), first_loc(net, net.regs[0]),
+    ctx.ob('C26.priority', tag + '.selection.reachable', reach == list(range(n)), rloc,
            'every registered input can become the selected one: reachable selections %s of %d inputs' % (reach, n))
 
 
@@ -453,14 +459,15 @@ def check_mux(ctx, n):
                 got, rw = net.sig('in%d.ready' % k, env)
                 a_rdy.check(got == rdy, where, 'in%d.ready=%r' % (k, got), rw, first_loc(net, 'in%d.ready' % k))
     except CombLoop as ex:
-        ctx.ob('C26.mux-combinational', tag + '.comb-loop', False, None, 'combinational loop: %s' % ex)
+        ctx.ob('C26.mux-combinational', tag + '.comb-loop', False, getattr(ex, 'loc', None), 'combinational loop: %s' % ex)
         return
     except Unsupported as ex:
         raise AnalysisError('%s: construct not understood: %s' % (tag, ex))
-    a_valid.emit(ctx)
+    vloc = first_loc(net, OUT + 'valid')
+    a_valid.emit(ctx, vloc)
     for f in data:
-        a_data[f].emit(ctx)
-    a_rdy.emit(ctx)
+        a_data[f].emit(ctx, first_loc(net, OUT + f) or vloc)
+    a_rdy.emit(ctx, vloc)
 
 
 def run(ctx):
